@@ -20,6 +20,33 @@ def run_c20(check, thorough):
         extra = f" (source ordering {('degree', 'none', 'sort')[args[4]]!r})" if fname == "dformula" else ""
         check.violation(f"{fname}" + (f"[ordering={('degree', 'none', 'sort')[args[4]]}]" if fname == "dformula" else ""), f"term-level differentiation law {fname} fails natively for {args}{extra}",
                         {"kind": "ch_native", "module": "ch_c20", "function": fname, "call": {"args": args, "kwargs": {}}})
+    # every route to a derivative agrees: Formula.differentiate, ModelSpec.differentiate (fresh and materialized), also for
+    # variables whose names coincide with built-in transforms (I, C, log) or are quoted (native, ground)
+    import itertools
+
+    import pandas
+    from formulaic import Formula, ModelSpec, model_matrix
+
+    names_sets = [("a", "b", "c"), ("I", "C", "log"), ("scale", "b", "`x y`"), ("np", "Q", "exp")]
+    shapes = ["{0} + {1} + {0}:{1} + {0}:{1}:{2}", "{0}:{1} + {2}", "{2} + {0}:{2} + {1}"]
+    routes_bad = []
+    for ns, shp in itertools.product(names_sets, shapes):
+        f = shp.format(*ns)
+        cols = [n.strip("`") for n in ns]
+        df = pandas.DataFrame({c: [float(i + 1 + 2 * k) for i in range(4)] for k, c in enumerate(cols)})
+        for wrt in [(cols[0],), (cols[1],), (cols[0], cols[1]), (cols[2], cols[0]), (cols[0], cols[0])]:
+            try:
+                want = [repr(t) for t in Formula(f).differentiate(*wrt)]
+                got1 = [repr(t) for t in ModelSpec(formula=Formula(f)).differentiate(*wrt).formula]
+                got2 = [repr(t) for t in model_matrix(f, df).model_spec.differentiate(*wrt).formula]
+            except Exception as e:
+                routes_bad.append((f, wrt, f"raised {type(e).__name__}: {str(e)[:80]}"))
+                continue
+            if got1 != want or got2 != want:
+                routes_bad.append((f, wrt, f"Formula.differentiate gives {want}, ModelSpec.differentiate {got1} (fresh) / {got2} (materialized)"))
+    check.obligation("derivative.routes/ground", "ground" if not routes_bad else "refuted")
+    for f, wrt, msg in routes_bad[:3]:
+        check.violation("derivative-routes-differ", f"d/d{list(wrt)} of {f!r}: {msg}", {"kind": "c20_routes", "formula": f, "wrt": list(wrt)})
     runner.run_module(check, "ch_c20", {"dterm": [0, 1, 2, 3], "dformula": list(range(8))}, pct=600 if thorough else 100, ppt=15, group="derivative.terms",
                       keyer=lambda fname, call: f"{fname}")
 
